@@ -574,6 +574,14 @@ class Function:
                     l = self.nodes[self.strip(inn["ch"][0])]
                     ok = l["k"] == "DeclRefExpr" and l["decl"].get("id") == v
                 if not ok:
+                    # N8b: no initialisation in front of it: the loop carries on with the variable as an earlier loop left it,
+                    # `for (; cond; step) body` (the continuation form of the pinned tree's margin loops)
+                    bn = self.nodes[body]
+                    bn["ch"] = [x for x in bn["ch"] if x != last]
+                    wn["k"] = "ForStmt"
+                    wn["init"], wn["inc"] = -1, last
+                    wn["ch"] = [-1, -1, wn["cond"], last, body]
+                    wn["normalized"] = "while (continuation)"
                     continue
                 bn = self.nodes[body]
                 bn["ch"] = [x for x in bn["ch"] if x != last]
@@ -1640,6 +1648,7 @@ class Program:
             # every `return e` of the helper stores e where the caller wants the result (or is the end of the path, for a call statement)
             first = True
             if decl_target is not None:
+                f.nodes[S]["ch"] = [x for x in f.nodes[S]["ch"] if x != decl_target.get("init")]
                 decl_target["init"] = -1
                 body_kids = [S] + body_kids
                 pre_elems = [S]
@@ -1687,6 +1696,7 @@ class Program:
                     dn.update(dict(k="NullStmt", ch=[], synthetic=True))
                 dn.pop("decls", None)
                 if decl_target is not None:
+                    f.nodes[S]["ch"] = [x for x in f.nodes[S]["ch"] if x != decl_target.get("init")]
                     decl_target["init"] = -1
                     body_kids = [S] + body_kids
                     pre_elems = [S]
@@ -1698,6 +1708,7 @@ class Program:
                 body_kids.append(len(f.nodes) - 1)
                 extra_elems.append(len(f.nodes) - 1)
             elif decl_target is not None:
+                f.nodes[S]["ch"] = [(ret_expr + off) if x == decl_target.get("init") else x for x in f.nodes[S]["ch"]]
                 decl_target["init"] = ret_expr + off
                 body_kids.append(S)
                 extra_elems.append(S)
